@@ -1330,6 +1330,37 @@ def rule_M6(ctx, rule: str = "M6") -> None:
             ctx.proved(rule, f"fixed-payload-length[{t}]", loc)
 
 
+def rule_M7(ctx, rule: str = "M7") -> None:
+    """text is decoded with the strict error handler, like it is encoded: a lenient handler (surrogatepass, ignore, replace ...)
+    accepts ill-formed UTF-8 and yields a str that differs from what was sent or cannot be encoded again"""
+    m = model(ctx)
+    mod = m.mod
+    loc = mod.loc(mod.func("Message._postprocess_single"))
+    bad = None
+    n = 0
+    for val, kind, d, ret in m.dec[("string", 2)]:
+        if kind != "text" or ret is None:
+            continue
+        n += 1
+        errs = None
+        if ret[0] == "call" and dotted(ret[1]) == "str":
+            errs = ret[2][2] if len(ret[2]) > 2 else dict(ret[3]).get("errors")
+        elif ret[0] == "call" and ret[1][0] == "a" and ret[1][2] == "decode":
+            errs = ret[2][1] if len(ret[2]) > 1 else dict(ret[3]).get("errors")
+        if errs is not None and errs != C("strict"):
+            bad = bad or (show(errs), show(ret))
+    enc_bad = None
+    for val, kind, d in m.enc["string"]:
+        pass
+    if bad:
+        ctx.refuted(rule, "string-decode:strict", bad[0], loc, f"string payloads are decoded by {bad[1]}: with the error handler {bad[0]} ill-formed UTF-8 is accepted instead of rejected, and the "
+                    "resulting str (e.g. a lone surrogate) cannot be encoded again by the strict encoder", "M().parse(b'\\x0a\\x03\\xed\\xa0\\x80') then bytes(...)")
+    elif not n:
+        ctx.inconclusive(rule, "string-decode:strict", "no text decoding path found for string fields", loc)
+    else:
+        ctx.proved(rule, "string-decode:strict", loc, f"{n} decoding path(s), strict error handling")
+
+
 def rule_T6b(ctx, rule: str = "T6") -> None:
     """a module-level dict used as a cache: everything the cached value is built from appears in the key"""
     mod = ctx.repo.mod(M_INIT)
